@@ -639,6 +639,182 @@ pub fn killed(ctx: &Ctx) -> Stats {
     st
 }
 
+/// The interrupted earlier run worked on the *same input file* as the run that is judged (often gzip-compressed), and
+/// the reference result is taken BEFORE it, with a temporary directory of its own.  Whatever an interrupted run leaves
+/// behind — in the output location, next to the input, in the temporary directory — must not change what the same
+/// command delivers afterwards, neither into the location of the killed run nor into a new one.
+pub fn sameinput(ctx: &Ctx) -> Stats {
+    let n = ctx.n(24, 240);
+    let not_finished = std::sync::atomic::AtomicU64::new(0);
+    let mut st = par_cases(ctx, n, |idx, st| {
+        let mut rng = Rng::keyed(ctx.seed, "c17.sameinput", idx);
+        let sc = Scratch::new(ctx, "c17s");
+        let family = idx % 8;
+        let nbig = rng.usize(6000, 14000);
+        let big: Vec<Rec> = (0..nbig)
+            .map(|i| Rec { id: format!("k{}", i), desc: None, seq: (0..rng.usize(60, 260)).map(|_| *rng.pick(b"ACGT")).collect() })
+            .collect();
+        let text = ser::to_fasta(&big, &SerOpts::plain());
+        let container = rng.below(3);
+        let inp = match container {
+            0 => sc.write("big.fa", &text),
+            1 => sc.write("big.fa.gz", &ser::gzip(&text, &ser::GzLayout::Multi(3), &mut rng)),
+            _ => sc.write("big.fasta.gz", &ser::gzip(&text, &ser::GzLayout::Single(6), &mut rng)),
+        };
+        st.class(["plain input", "multi-member gzip input", "gzip input"][container as usize]);
+        let mk = |rng: &mut Rng, threads: usize| -> (Vec<String>, bool, &'static str, bool) {
+            let t = threads.to_string();
+            let i = inp.as_str();
+            match family {
+                0 => (sv(&["comp", "oligo", "-i", i, "-k", &rng.usize(3, 6).to_string(), "-t", &t]), false, "", true),
+                1 => (sv(&["comp", "oligo", "-i", i, "-k", &rng.usize(3, 6).to_string(), "-c", "-H", "-t", &t]), false, "", true),
+                2 => (sv(&["comp", "cgr", "-i", i, "-v", "64", "-t", &t]), false, "", true),
+                3 => (sv(&["comp", "cgr", "-i", i, "-k", &rng.usize(3, 5).to_string(), "-v", "64", "-t", &t]), false, "", true),
+                4 => (sv(&["ctr", "-i", i, "-k", &rng.usize(10, 16).to_string(), "-t", &t]), true, "kmers.counts", false),
+                5 => (sv(&["cov", "-i", i, "-k", &rng.usize(7, 11).to_string(), "-s", "5", "-c", &rng.usize(5, 9).to_string(), "-t", &t]), true, "kmers.vectors", true),
+                6 => {
+                    let m = rng.usize(7, 10);
+                    (sv(&["min", "-i", i, "-m", &m.to_string(), "-w", &(m + rng.usize(1, 9)).to_string(), "-p", "s2m", "-t", &t]), false, "", false)
+                }
+                _ => {
+                    let m = rng.usize(7, 10);
+                    (sv(&["min", "-i", i, "-m", &m.to_string(), "-w", &(m + rng.usize(1, 9)).to_string(), "-p", "m2s", "-t", &t]), false, "", false)
+                }
+            }
+        };
+        let t1 = rng.usize(8, 16);
+        let first = mk(&mut rng, t1);
+        // the judged command: in half of the cases exactly the interrupted one (a plain "run it again")
+        let t2 = rng.usize(1, 8);
+        let second = if rng.chance(1, 2) { first.clone() } else { mk(&mut rng, t2) };
+        let fam_name = ["comp oligo", "comp oligo -c", "comp cgr", "comp cgr -k", "ctr", "cov", "min s2m", "min m2s"][family as usize];
+        st.case(true, mix(idx) ^ hash_bytes(second.0.join(" ").as_bytes()));
+        st.class(fam_name);
+        let (reference, shared, elsewhere) = (sc.path("reference"), sc.path("shared"), sc.path("elsewhere"));
+        let own_tmp = sc.subdir("tmp-of-reference-run");
+        let delay_ms = *rng.pick(&[2u64, 5, 10, 20, 40, 80, 150, 300]);
+        let fsize_limit: Option<u64> = if (idx / 8) % 2 == 1 { Some(*rng.pick(&[4096u64, 20_000, 65_536, 300_000, 1 << 20])) } else { None };
+        let case = || {
+            Json::obj()
+                .set("input", Json::s(inp.clone()))
+                .set("records", Json::u(nbig))
+                .set("killed_after_ms", Json::Int(delay_ms as i128))
+                .set("file_size_limit_of_interrupted_run", fsize_limit.map_or(Json::Null, |l| Json::Int(l as i128)))
+                .set("interrupted", Json::s(first.0.join(" ")))
+                .set("judged", Json::s(second.0.join(" ")))
+        };
+        let run = |st: &mut Stats, out: &str, env: &[(&str, &str)]| -> Option<bool> {
+            let mut args = second.0.clone();
+            args.push("-o".into());
+            args.push(out.to_string());
+            let r = run_cli_env(ctx, &args, None, &CliLimits::default(), env, None);
+            if r.timed_out && !r.cpu_exceeded && !r.stalled {
+                st.inconclusive(format!("CLI watchdog: {}", r.describe()));
+                return None;
+            }
+            Some(r.ok())
+        };
+        // 0. the reference: the judged command alone, before anything was interrupted, temporary directory of its own
+        match run(st, &reference, &[("TMPDIR", own_tmp.as_str())]) {
+            None => return,
+            Some(false) => {
+                st.inconclusive(format!("reference run failed: {}", second.0.join(" ")));
+                return;
+            }
+            Some(true) => {}
+        }
+        // 1. the interrupted run on the same input
+        {
+            let mut args = first.0.clone();
+            args.push("-o".into());
+            args.push(shared.clone());
+            let mut cmd = std::process::Command::new(ctx.cli_path());
+            cmd.args(&args).stdin(std::process::Stdio::null()).stdout(std::process::Stdio::null()).stderr(std::process::Stdio::null());
+            if let Some(lim) = fsize_limit {
+                use std::os::unix::process::CommandExt;
+                unsafe {
+                    cmd.pre_exec(move || {
+                        let rl = libc::rlimit { rlim_cur: lim, rlim_max: lim };
+                        libc::setrlimit(libc::RLIMIT_FSIZE, &rl);
+                        Ok(())
+                    });
+                }
+                st.class("earlier run under a file-size limit");
+            }
+            match cmd.spawn() {
+                Ok(mut ch) => {
+                    if fsize_limit.is_some() {
+                        let t0 = std::time::Instant::now();
+                        while matches!(ch.try_wait(), Ok(None)) && t0.elapsed() < std::time::Duration::from_secs(20) {
+                            std::thread::sleep(std::time::Duration::from_millis(5));
+                        }
+                    } else {
+                        std::thread::sleep(std::time::Duration::from_millis(delay_ms));
+                    }
+                    let running = matches!(ch.try_wait(), Ok(None));
+                    let _ = ch.kill();
+                    let died = ch.wait().ok().map_or(false, |s| !s.success());
+                    if running || (fsize_limit.is_some() && died) {
+                        not_finished.fetch_add(1, std::sync::atomic::Ordering::Relaxed);
+                        st.class("earlier run killed before it finished");
+                    } else {
+                        st.class("earlier run had already finished");
+                    }
+                }
+                Err(e) => {
+                    st.inconclusive(format!("cannot start the CLI: {}", e));
+                    return;
+                }
+            }
+        }
+        // 2. the judged command into the location of the interrupted run and into a new one
+        for (out, what) in [(&shared, "the location of the interrupted run"), (&elsewhere, "a new location")] {
+            match run(st, out, &[]) {
+                None => return,
+                Some(false) => {
+                    st.violate(&format!("history.cli_run_failed_after_kill:{}", fam_name), format!("{} failed (into {}) although it succeeded before [{}] was interrupted", second.0.join(" "), what, first.0.join(" ")), case());
+                    return;
+                }
+                Some(true) => {}
+            }
+        }
+        let read = |base: &str| -> Vec<u8> {
+            let p = if second.1 { format!("{}/{}", base, second.2) } else { base.to_string() };
+            std::fs::read(p).unwrap_or_default()
+        };
+        let same = |a: &[u8], b: &[u8]| -> bool {
+            if second.3 {
+                a == b
+            } else if family == 7 {
+                super::c10::normalise_m2s(a) == super::c10::normalise_m2s(b)
+            } else {
+                sorted_lines(a) == sorted_lines(b)
+            }
+        };
+        let r = read(&reference);
+        for (out, sig) in [(&shared, "history.depends_on_killed_run"), (&elsewhere, "history.depends_on_killed_run_elsewhere")] {
+            let a = read(out);
+            if !same(&a, &r) {
+                st.violate(
+                    &format!("{}:cli.{}", sig, fam_name),
+                    format!("[{}] gave {} bytes before [{}] was interrupted on the same input ({} ms / limit {:?}) and {} bytes afterwards", second.0.join(" "), r.len(), first.0.join(" "), delay_ms, fsize_limit, a.len()),
+                    case(),
+                );
+                break;
+            }
+        }
+        if idx % 11 == 0 {
+            st.sample(case());
+        }
+        for p in [&shared, &elsewhere, &reference] {
+            let _ = std::fs::remove_dir_all(p);
+            let _ = std::fs::remove_file(p);
+        }
+    });
+    st.set_extra("earlier_runs_killed_before_they_finished", Json::Int(not_finished.load(std::sync::atomic::Ordering::Relaxed) as i128));
+    st
+}
+
 /// The earlier run used an *almost identical* input: the same records except one in the middle (same id, same length,
 /// other bases) — the situation after a record was corrected and the command repeated.  Outputs have the same size and
 /// the same beginning and end, so anything that decides "nothing changed" from size, time stamps or a sample of the
